@@ -586,6 +586,12 @@ func RunCheck(chk *Check, tier string, seed int64) int {
 		if total.States == 0 { // run stopped early: count what the reported violations covered
 			total.States, total.Trans = violStates, total.Trans+violTrans
 		}
+		if total.States < 1 { // aborted before any exploration finished (e.g. the free-running pass failed first): the initial state
+			total.States = 1
+		}
+		if total.Trans < 1 {
+			total.Trans = 1
+		}
 		cov["states"] = total.States
 		cov["transitions"] = total.Trans
 		cov["traces_validated_against_impl"] = total.Traces
